@@ -178,17 +178,28 @@ def check_case(case):
                     expect = float(p["alpha"]) + float(p["W0"][sid[r]]) if kind == "additive" else 0.0
                     require(_close(mean[r], expect), "control.pair_is_intercept", lambda: "(ctl,ctl) row predicts %r, sample intercept is %r" % (mean[r], expect))
             if kind == "additive":
-                single_rows = [r for r in range(n) if (tid[r] == -1).sum() == 1]
+                # arity-1 twin on the same mapping: (t, ctl) / (ctl, t) -> [t];  (ctl, ctl) -> [ctl]
+                single_rows = [r for r in range(n) if (tid[r] == -1).sum() >= 1]
                 if single_rows:
+                    def one_t(r):
+                        j = 0 if tid[r][0] != -1 else 1
+                        return [rows[r]["t"][j]], [rows[r]["d"][j]]
+
                     one = S.build_screen(
-                        {"arity": 1, "control": "ctl", "observed": sc["observed"], "rows": [dict(rows[r], t=[rows[r]["t"][0] if tid[r][0] != -1 else rows[r]["t"][1]], d=[rows[r]["d"][0] if tid[r][0] != -1 else rows[r]["d"][1]]) for r in single_rows]},
+                        {"arity": 1, "control": "ctl", "observed": sc["observed"], "rows": [dict(rows[r], t=one_t(r)[0], d=one_t(r)[1]) for r in single_rows]},
                         treatment_mapping=tm,
                         sample_mapping=sm,
                     )
                     got = np.asarray(theta.predict_conditional_mean(one), dtype=float)
-                    require(_close(got, mean[single_rows], scale=oscale[single_rows] + 1e-300), "control.pair_equals_single_agent", lambda: "arity-1 prediction %r differs from (t,ctl)/(ctl,t) prediction %r" % (got.tolist(), mean[single_rows].tolist()))
+                    require(_close(got, mean[single_rows], scale=oscale[single_rows] + 1e-300), "control.pair_equals_single_agent", lambda: "arity-1 prediction %r differs from the prediction of the same experiments written as pairs with control %r (ids %r)" % (got.tolist(), mean[single_rows].tolist(), np.asarray(one.treatment_ids).tolist()))
+                    om1, os1 = _oracle_mean(p, np.asarray(one.sample_ids).astype(int), np.asarray(one.treatment_ids).astype(int))
+                    require(_close(got, om1, scale=os1 + 1e-300), "mean.closed_form.arity1", lambda: "arity-1 modelled mean %r, closed form %r" % (got.tolist(), om1.tolist()))
                     gv = np.asarray(theta.predict_viability(one), dtype=float)
                     require(_close(gv, via[single_rows], rtol=1e-9), "control.pair_equals_single_agent_viability", "arity-1 viability differs from the pair-with-control viability")
+                    require(S.same_bits(gv, np.clip(expit(got), 0.01, 0.99)), "viability.logistic_clip.arity1", "arity-1 viability is not clip(expit(mean))")
+                    if len(single_rows) > 1:
+                        half = np.arange(len(single_rows)) % 2 == 0
+                        require(_close(np.asarray(theta.predict_conditional_mean(one.subset(half)), dtype=float), got[half]), "mean.subset.arity1", "arity-1 prediction on a subset differs from the whole-screen entries")
             msg = _unchanged(theta, screen, snap)
             require(msg is None, "purity", lambda: msg)
 
